@@ -14,5 +14,5 @@ def obligations(tier):
                "texts incl. ';'-terminated, keyword-leading (use/insert/delete/alter/GO/CREATE), commas and parentheses (symbolic index)")
             for i, k in enumerate(KINDS)] + [
         Ob(f"C08.line/{k}/quoted-lines", "pre", "c_comment", {"VF_KIND": i, "VF_BASE": 1}, t, FN_PRE,
-           "as above on a script whose lines carry quoted literals containing the other kind of quote (DEFAULT '\"', COMMENT \"it's\")")
+           "as above on a script whose lines carry quoted literals containing the other kind of quote (DEFAULT '\"', a column named \"b's\")")
         for i, k in enumerate(KINDS) if k in ("trail_dash", "trail_dash_glued", "trail_block")]
